@@ -43,6 +43,7 @@ import OpenFGAVerif.Model.CheckV1
 import OpenFGAVerif.Gen.CheckV2
 import OpenFGAVerif.Props.ReqClone
 import OpenFGAVerif.Props.ResolverKeys
+import OpenFGAVerif.Props.V2Recursive
 
 namespace OpenFGAVerif.C03
 open OpenFGAVerif.BoolSys OpenFGAVerif.DfsG OpenFGAVerif.CheckV2 OpenFGAVerif.Vocab
